@@ -128,6 +128,18 @@ func framesSeeds() [][]byte {
 			out = append(out, cat([]byte{e, a, 0, 0}, stream))
 		}
 	}
+	// close frames with boundary status codes through the control-handling entries
+	for _, code := range boundaryCloseCodes {
+		body := string([]byte{byte(code >> 8), byte(code)}) + "x"
+		out = append(out, cat([]byte{4, 0x01, 0, 0}, fr(ref.OpClose, true, false, 0, body)), cat([]byte{5, 0x00, 0, 0}, fr(ref.OpClose, true, true, 0, body)),
+			cat([]byte{2, 0x81, 0, 0}, fr(ref.OpText, false, false, 0, "a"), fr(ref.OpClose, true, false, 0, body)))
+	}
+	// unchecked control headers handed to HandlePing / HandlePong / HandleClose directly
+	for _, b0 := range []byte{0x89, 0x8a, 0x88} {
+		for _, l := range []hostileLen{{126, 126}, {127, 1 << 16}, {127, 1<<24 + 1}, {127, inProcCap}} {
+			out = append(out, cat([]byte{5, 0x81, 0x02, 0}, hostileHeader(b0, false, l), []byte("payload")), cat([]byte{5, 0x01, 0x02, 0}, hostileHeader(b0, false, l), []byte("payload")))
+		}
+	}
 	for _, l := range hostileLens {
 		for _, masked := range []bool{false, true} {
 			a := byte(1)
